@@ -146,7 +146,7 @@ fn pipeline_unit(ctx: &Ctx, si: usize, chunk: u64, n: u64, run_id: u64) -> UnitO
                     }
                 }
                 if r == 7 {
-                    out.sample = Some(json!({"window": "pipeline", "set": name, "draw": hx(&d), "trace": trace_json(&t)}));
+                    out.sample = Some(json!({"window": "pipeline", "set": name, "draw": hx(&d), "edges": t.edge_count, "mem_events": t.mem_count}));
                 }
             }
         }
@@ -245,7 +245,7 @@ fn kernel_unit(ctx: &Ctx, ki: usize, chunk: u64, n: u64, run_id: u64) -> UnitOut
             return out;
         }
         if r == 9 && ki % 8 == 0 {
-            out.sample = Some(json!({"window": "kernel", "kernel": k.name, "value_class": class, "first_coefficients": inp.polys[0][..8].to_vec(), "trace": trace_json(&t)}));
+            out.sample = Some(json!({"window": "kernel", "kernel": k.name, "value_class": class, "first_coefficients": inp.polys[0][..8].to_vec(), "edges": t.edge_count, "mem_events": t.mem_count}));
         }
     }
     out
